@@ -40,6 +40,7 @@ type Config struct {
 	TimerAnyTime bool    // virtual timers may fire at any scheduling point
 	Deadline    time.Time
 	SelfCheck   bool
+	RestartEvery int
 	SkipInit    []string // repo packages whose initialisers are not run (globals stay zero)
 	GoAsCall    []string // function-name prefixes: `go f()` runs f synchronously (program order = hand-off order)
 }
@@ -176,6 +177,8 @@ func (r *Result) merge(o *Result) {
 	r.Stats.Unknown += o.Stats.Unknown
 	r.Stats.Errors += o.Stats.Errors
 	r.Stats.Seconds += o.Stats.Seconds
+	r.Stats.ValueSeconds += o.Stats.ValueSeconds
+	r.Stats.ValueCalls += o.Stats.ValueCalls
 	if o.Stats.MaxQuery > r.Stats.MaxQuery {
 		r.Stats.MaxQuery = o.Stats.MaxQuery
 	}
@@ -210,6 +213,10 @@ type Engine struct {
 	fnInfos    map[*ssa.Function]*fnInfo
 	intrCache  map[*ssa.Function]string
 	objSeq     int
+	pathsSinceRestart int
+	model      map[string]uint64
+	modelValid bool
+	ModelHits  int
 
 	// persistent (once per engine) stdlib state
 	persistGlobals   map[*ssa.Global]*Object
@@ -283,6 +290,58 @@ func (e *Engine) nextLevel() int {
 	return e.p.levels + 1
 }
 
+// ensureModel makes e.model a satisfying assignment of the current path condition.
+func (e *Engine) ensureModel() bool {
+	if e.modelValid {
+		return true
+	}
+	r := e.solver.CheckWith(nil)
+	if r != smt.Sat {
+		e.solver.EndCheck()
+		return false
+	}
+	var syms []*term.T
+	for _, s := range e.syms {
+		syms = append(syms, s.t)
+	}
+	m, ok := e.solver.Values(syms)
+	e.solver.EndCheck()
+	if !ok {
+		return false
+	}
+	e.model = m
+	e.modelValid = true
+	return true
+}
+
+// fetchModel reads the model of the open (sat) CheckWith scope.
+func (e *Engine) fetchModel() bool {
+	var syms []*term.T
+	for _, s := range e.syms {
+		syms = append(syms, s.t)
+	}
+	m, ok := e.solver.Values(syms)
+	if ok {
+		e.model = m
+		e.modelValid = true
+	} else {
+		e.modelValid = false
+	}
+	return ok
+}
+
+// evalModel evaluates a Bool term under the cached model.
+func (e *Engine) evalModel(c *term.T) (bool, bool) {
+	if !e.modelValid {
+		return false, false
+	}
+	v, ok := e.tb.Eval(c, e.model, map[int]*term.T{})
+	if !ok {
+		return false, false
+	}
+	return v.Val == 1, true
+}
+
 // Branch decides which way to go on condition c, forking when both are feasible.
 func (e *Engine) Branch(c *term.T) bool {
 	if c.Kind == term.KBoolConst {
@@ -307,24 +366,46 @@ func (e *Engine) Branch(c *term.T) bool {
 		}
 		return en.dir
 	}
-	rt := e.query(c)
 	en := logEntry{kind: lkBranch}
-	if rt == smt.Unsat {
-		en.dir = false
-	} else {
-		rf := e.query(e.tb.Not(c))
-		if rt == smt.Unknown || rf == smt.Unknown {
+	e.ensureModel()
+	if mv, ok := e.evalModel(c); ok {
+		// the model already witnesses one side; only the other side needs a query
+		e.ModelHits++
+		other := c
+		if mv {
+			other = e.tb.Not(c)
+		}
+		ro := e.query(other)
+		if ro == smt.Unknown {
 			en.unknown = true
 			e.p.unknown = true
 			e.res.Unknowns++
 		}
-		if rf == smt.Unsat {
-			en.dir = true
-		} else {
-			en.dir = true
+		en.dir = mv
+		if ro != smt.Unsat {
 			en.choice = true
 			en.pending = true
 		}
+	} else {
+		rt := e.query(c)
+		if rt == smt.Unsat {
+			en.dir = false
+		} else {
+			rf := e.query(e.tb.Not(c))
+			if rt == smt.Unknown || rf == smt.Unknown {
+				en.unknown = true
+				e.p.unknown = true
+				e.res.Unknowns++
+			}
+			if rf == smt.Unsat {
+				en.dir = true
+			} else {
+				en.dir = true
+				en.choice = true
+				en.pending = true
+			}
+		}
+		e.modelValid = false
 	}
 	if en.choice {
 		e.p.levels++
@@ -333,7 +414,11 @@ func (e *Engine) Branch(c *term.T) bool {
 	e.log = append(e.log, en)
 	e.logPos++
 	if en.choice {
-		e.ensureAsserted(&e.log[len(e.log)-1], c)
+		if en.dir {
+			e.ensureAsserted(&e.log[len(e.log)-1], c)
+		} else {
+			e.ensureAsserted(&e.log[len(e.log)-1], e.tb.Not(c))
+		}
 	}
 	return en.dir
 }
@@ -359,7 +444,19 @@ func (e *Engine) Assume(c *term.T) {
 		e.ensureAsserted(en, c)
 		return
 	}
-	r := e.query(c)
+	var r smt.Result
+	if mv, ok := e.evalModel(c); ok && mv {
+		r = smt.Sat
+		e.ModelHits++
+	} else {
+		r = e.solver.CheckWith(c)
+		if r == smt.Sat {
+			e.fetchModel()
+		} else {
+			e.modelValid = false
+		}
+		e.solver.EndCheck()
+	}
 	en := logEntry{kind: lkAssume, dir: r != smt.Unsat}
 	if r == smt.Unknown {
 		e.p.unknown = true
@@ -436,30 +533,40 @@ func (e *Engine) modelValue(t *term.T) uint64 {
 		}
 		return en.val
 	}
-	r := e.solver.CheckWith(nil)
-	if r != smt.Sat {
-		e.solver.EndCheck()
+	if !e.ensureModel() {
 		e.res.Unknowns++
-		e.abort("unknown", "model query not sat: "+r.String())
+		e.abort("unknown", "model query not sat")
 	}
-	set := map[*term.T]bool{}
-	term.Syms(t, set, map[int]bool{})
-	var syms []*term.T
-	for s := range set {
-		syms = append(syms, s)
-	}
-	m, ok := e.solver.Values(syms)
-	e.solver.EndCheck()
-	if !ok {
-		e.abort("unknown", "get-value failed")
-	}
-	v, ok2 := e.tb.Eval(t, m, map[int]*term.T{})
+	v, ok2 := e.tb.Eval(t, e.model, map[int]*term.T{})
 	if !ok2 {
 		e.abort("unknown", "cannot evaluate term under model")
 	}
 	e.log = append(e.log, logEntry{kind: lkValue, val: v.Val})
 	e.logPos++
 	return v.Val
+}
+
+// Implied reports whether the path condition implies c (no forking; result is logged).
+func (e *Engine) Implied(c *term.T) bool {
+	if c.Kind == term.KBoolConst {
+		return c.Val == 1
+	}
+	if e.logPos < len(e.log) {
+		en := &e.log[e.logPos]
+		e.logPos++
+		if en.kind != lkValue {
+			panic("log desync: expected value (implied)")
+		}
+		return en.val == 1
+	}
+	r := e.query(e.tb.Not(c))
+	v := uint64(0)
+	if r == smt.Unsat {
+		v = 1
+	}
+	e.log = append(e.log, logEntry{kind: lkValue, val: v})
+	e.logPos++
+	return v == 1
 }
 
 // Concretize forks over the feasible values of t and returns the chosen one.
@@ -470,6 +577,9 @@ func (e *Engine) Concretize(t *term.T, what string) uint64 {
 		}
 		if n > 4096 {
 			e.abort("bound", "concretize: too many values for "+what)
+		}
+		if n == 300 && e.cfg.Verbose {
+			fmt.Fprintf(os.Stderr, "concretize %s: many values, term %s\n%s\n", what, t, e.stackString())
 		}
 		v := e.modelValue(t)
 		var c *term.T
@@ -552,10 +662,33 @@ func (e *Engine) NewSym(name string, w int) *term.T {
 	return t
 }
 
+func (e *Engine) restartEvery() int {
+	if e.cfg.RestartEvery > 0 {
+		return e.cfg.RestartEvery
+	}
+	return 50
+}
+
+// restartSolver replaces the solver process (its global definitions grow without bound);
+// the next run re-asserts the path prefix level by level.
+func (e *Engine) restartSolver() {
+	e.pathsSinceRestart = 0
+	old := e.solver
+	s, err := smt.New(e.cfg.Solver, e.cfg.TimeoutMs)
+	if err != nil {
+		return
+	}
+	s.DumpTo = old.DumpTo
+	s.Stats = old.Stats
+	old.Close()
+	e.solver = s
+}
+
 // ---------- DFS driver ----------
 
 // backtrack flips the deepest pending choice; false when exhausted.
 func (e *Engine) backtrack() bool {
+	e.modelValid = false
 	for i := len(e.log) - 1; i >= 0; i-- {
 		en := &e.log[i]
 		if en.kind == lkBranch && en.choice && en.pending {
@@ -646,6 +779,10 @@ func (e *Engine) exploreTask(entry *ssa.Function, prefix []logEntry) {
 		if !e.backtrack() {
 			return
 		}
+		e.pathsSinceRestart++
+		if e.pathsSinceRestart >= e.restartEvery() {
+			e.restartSolver()
+		}
 	}
 }
 
@@ -734,6 +871,7 @@ func Explore(prog *ssa.Program, entry *ssa.Function, cfg Config) (*Result, error
 
 func (e *Engine) runPath(entry *ssa.Function) {
 	e.logPos = 0
+	e.modelValid = false
 	e.syms = e.syms[:0]
 	e.symCount = map[string]int{}
 	e.objSeq = 0
